@@ -112,11 +112,14 @@ def get_func_in_mro(obj: Any, code: CodeType) -> Optional[Callable[..., Any]]:
     val = inspect.getattr_static(obj, code.co_name, None)
     if val is None:
         return None
-    if isinstance(val, (classmethod, staticmethod)):
+    # Dispatch on type(val): isinstance() would consult val.__class__, and
+    # val may be any object the receiver stores under the function's name
+    val_type = type(val)
+    if issubclass(val_type, (classmethod, staticmethod)):
         cand = val.__func__
-    elif isinstance(val, property) and (val.fset is None) and (val.fdel is None):
+    elif issubclass(val_type, property) and (val.fset is None) and (val.fdel is None):
         cand = cast(Callable[..., Any], val.fget)
-    elif cached_property and isinstance(val, cached_property):
+    elif cached_property and issubclass(val_type, cached_property):
         cand = val.func
     else:
         cand = cast(Callable[..., Any], val)
